@@ -134,6 +134,7 @@ func cmdCheck(args []string) int {
 	}
 	if *prop == "C13" {
 		run.obls = append(run.obls, v.globalWriteScan()...)
+		run.obls = append(run.obls, v.builtinObligations()...)
 	}
 	// solve
 	var wg sync.WaitGroup
